@@ -119,6 +119,11 @@ def rejected_configurations(ctx, seeds):
         ("persistence directory missing", {"client_stats": "on", "persistence_directory": os.path.join(workdir, "nope")}, None),
         ("bad interface", {"interface": "not-an-address"}, None),
         ("no interface", {"interface": None}, None),
+        ("seed with 0x prefix", {"seed": "0x{SEED}"}, None),
+        ("seed with trailing space", {"seed": "'{SEED} '"}, None),
+        ("seed in quotes kept by the loader", {"seed": "'\"{SEED}\"'"}, None),
+        ("seed with a stray character", {"seed": "{SEED}g"}, None),
+        ("seed of odd length", {"seed": "{SEED}a"}, None),
         ("yaml: trailing document marker", {}, "%s---\n"),
         ("yaml: second document", {}, "%s---\nbatch_size: 4\n"),
         ("yaml: unknown key", {"bogus_key": 1}, None),
@@ -133,7 +138,9 @@ def rejected_configurations(ctx, seeds):
                 if source == "env" and (tmpl is not None or label.startswith("yaml")):
                     continue
                 st = {"interface": "127.0.0.1", "port": procmod.free_port(), "seed": seed.hex()}
-                st.update(extra)
+                st.update({k: (v.replace("{SEED}", seed.hex()) if isinstance(v, str) else v) for k, v in extra.items()})
+                if source == "env" and isinstance(st.get("seed"), str) and st["seed"].startswith("'"):
+                    st["seed"] = st["seed"][1:-1]        # the quotes are YAML syntax, not part of the value
                 st = {k: v for k, v in st.items() if v is not None}
                 env = {k: v for k, v in os.environ.items() if not k.startswith("ROUGHENOUGH_")}
                 if source == "file":
